@@ -66,7 +66,7 @@ func genC13(g GenCtx) interface{} {
 		// a list fails: the controller stops (C14) - or, if it does not, it must
 		// not sit there alive without ever listing again
 		sc.FailAt = 1 + rng.Intn(sc.Periods)
-		sc.FailKind = pick(rng, "error", "error-typed-nil", "error-with-list", "error-with-full-list", "error-timeout", "error-canceled", "error-canceled-bare", "error-deadline-bare", "error-notrunning", "error-notrunning-wrapped", "error-nilcause", "error-nilcause-with-list", "error-aggregate")
+		sc.FailKind = pick(rng, "error", "error-typed-nil", "error-with-list", "error-with-full-list", "error-timeout", "error-canceled", "error-canceled-bare", "error-deadline-bare", "error-notrunning", "error-notrunning-wrapped", "error-nilcause", "error-nilcause-with-list", "error-aggregate", "error-server-timeout", "error-gateway-timeout", "error-too-many-requests", "error-forbidden")
 	}
 	if g.Idx%20 == 13 {
 		// "never" spelled as a huge period (a year, decades): no list but the first
